@@ -3,6 +3,7 @@ import json
 import vcheck
 
 FIELDS = ("f64", "f62", "f128", "q64", "q62", "q128", "c64", "c62")
+MIXED_OPS = ("eval_mixed", "eval_many_mixed", "mul_acc_mixed")
 
 
 def run(ctx):
@@ -10,18 +11,23 @@ def run(ctx):
     ctx.rule = ("correspondence: extracted Gallina model (coq/Model/Polynom.v over zp_ops P64/P62/P128 and over the quadratic / cubic extension "
                 "records quad64/62/128_ops, cube64/62_ops of Model/PolynomExt.v) vs the crate on one case per line, fields f64 f62 f128 q64 q62 q128 "
                 "c64 c62 (extension elements travel as base coordinates; pool = tuples over {0,1,2,p-1,random} incl. embedded base elements and a "
-                "zero low coordinate; the same boundary classes with lengths <= 9, 64/65 only for linear-time ops); "
+                "zero low coordinate; the same boundary classes with lengths <= 9, 64/65 only for linear-time ops); mixed instantiations "
+                "eval<B,E>, eval_many<B,E>, mul_acc<B,E> on every extension field (base polynomial lengths 0,1,2,3,7,8,9,64 with zero leading/low "
+                "coefficients at the points 0, 1, embedded base element, zero low coordinate, random; mul_acc equal/unequal lengths, c in "
+                "{0,1,embedded,random}, b entries incl. 0,1,p-1); "
                 "boundary stream first (deterministic: vector lengths 0,1,2,3,7,8,9,63,64,65 and 1023..1025 for the linear-time ops; 0/1/2/all zero "
                 "leading coefficients, 0/1/2 zero low coefficients; elements 0,1,2,p-1,p-2,(p-1)/2; mul on all length pairs of {0,1,2,3,7,8,9}; "
                 "div valid/exact/with remainder and every panic class (b empty, [0], all zero, deg b > deg a, empty dividend); syn_div a in "
                 "{1,2,3,4,7} x b in {1,p-1,random} plus a in {0,len-1,len,len+1}, b = 0; syn_div_roots 0..len roots incl. 0 and repeated; "
                 "batch_inversion with all zero masks for L<=4; interpolate with x=0 at first/middle/last position, duplicates, low-degree ys, "
                 "length mismatch; interpolate_batch N in {0,1,2,3,4,8}, nx != ny), then a random structured stream (4/5) and a malformed "
-                "stream (1/5) over all 20 operations and all eight fields (half of it on extension fields); falsifier: schoolbook reference polynomial arithmetic + u128 modular "
+                "stream (1/5) over all 20 operations (+ the 3 mixed ones on extension fields) and all eight fields (half of it on extension fields); falsifier: schoolbook reference polynomial arithmetic + u128 modular "
                 "arithmetic on base and extension fields, boundary sizes first then random rounds; distinct = distinct case lines")
     ctx.assumptions += [
         "field operations of the base fields agree with Z/p on canonical residues (C07, C08): the model runs on zp_ops p",
-        "B != E instantiations (eval<B,E>, mul_acc<F,E>) are covered by the falsifier only",
+        "B != E instantiations (eval<B,E>, eval_many<B,E>, mul_acc<F,E>) are in the correspondence with B = the base field of E, for E in "
+        "q64/q62/q128/c64/c62: the model takes E::from = the embedding b -> (b, 0[, 0]) and mul_base = the ExtensibleField::mul_base routine "
+        "of C08's model (coq/Model/ExtField.v)",
         "arithmetic of QuadExtension / CubeExtension agrees with C08's model (coq/Model/ExtField.v over the generated ExtensibleField bodies): "
         "the extension correspondence runs the polynomial model on that arithmetic",
         "serial (non-`concurrent`) code paths of get_power_series, get_power_series_with_offset, add_in_place, mul_acc, batch_inversion",
@@ -34,8 +40,9 @@ def run(ctx):
     if not quick:
         ctx.coqchk("C20")
     # correspondence: extracted model vs implementation.  The boundary streams (1615 base-field + 1071 extension-field
-    # cases) are always emitted in full; n is the total, so the quick tier adds ~200 random/malformed cases on top.
-    n = 2900 if quick else 20000
+    # + 177 mixed-instantiation cases = 2863) are always emitted in full; n is the total, so the quick tier adds ~240
+    # random/malformed cases on top.
+    n = 3100 if quick else 20000
     drv = ctx.build_driver("c20")
     for profile in ("debug",) + (("release",) if not quick else ()):
         hb = ctx.build_harness("c20", profile)
@@ -54,6 +61,9 @@ def run(ctx):
                     ctx.ob(f"corr-ext-fields:{profile}", all(int(kv.get(f, 0)) > 0 for f in FIELDS),
                            f"cases per field: {l[5:200]}")
                     ctx.notes.setdefault("extension_field_cases", {})[profile] = ext
+                    ctx.ob(f"corr-mixed-ops:{profile}", all(int(kv.get(o, 0)) > 0 for o in MIXED_OPS),
+                           "cases per mixed op: " + " ".join(f"{o}={kv.get(o, 0)}" for o in MIXED_OPS))
+                    ctx.notes.setdefault("mixed_instantiation_cases", {})[profile] = {o: int(kv.get(o, 0)) for o in MIXED_OPS}
             ctx.correspondence(f"polynom:{profile}", corr_lines, drv, timeout=900)
         # property-level falsifier (independent oracle); more effort when an obligation is broken
         if hb:
@@ -87,5 +97,5 @@ def run(ctx):
         "get_power_series(_with_offset), add_in_place, mul_acc")
     ctx.notes["tested_only"] = (
         "interpolate_batch (unbounded spec not proved; bounded GF(7) agreement theorems + correspondence + falsifier), interpolate o eval_many = id, "
-        "exact-division corollaries, B != E instantiations (falsifier), `concurrent` feature variants (other property)")
+        "exact-division corollaries, B != E instantiations (correspondence + falsifier), `concurrent` feature variants (other property)")
     ctx.notes["defects_repaired"] = "notes/C20.findings.json: F20a interpolate panics on X = 0; F20b mul([],[]); F20c div([],[c]); F20d get_power_series(_,0)"
